@@ -139,6 +139,15 @@ def run(ctx):
         dd = subdir("stress", vfiles)
         out = ctx.scratch / "stress.res"
         g, iters = (8, 4000) if q else (16, 40000)
+        # un-instrumented timing first (the race build is several times slower and hides narrow windows), then -race
+        pout = ctx.scratch / "stress_plain.res"
+        ctx.vh(["c14", "stress", dd / "values_trace_plain.ndjson", pout, g, iters], timeout=1800, env=env,
+               fatal_key="concurrent marshalling of urlutil.URL / Duration / HostPort / Prefix")
+        if pout.exists():
+            ps = ctx.collect(pout)
+            with _lock:
+                sums.append({"evaluations": ps["stress_calls"], "stress_calls": ps["stress_calls"],
+                             "retained_results": ps["retained_results"]})
         ctx.vh(["c14", "stress", dd / "values_trace.ndjson", out, g, iters], race=True, timeout=1800, env=env,
                fatal_key="concurrent marshalling of urlutil.URL / Duration / HostPort / Prefix")
         if not out.exists():
@@ -217,7 +226,11 @@ def run(ctx):
         exhaustive.append(count_lines(dd / "url_vectors.ndjson"))
         shutil.copy(dd / "url_vectors.ndjson", cold / "url_vectors.ndjson")
         ready["url"].set()
-        vh_collect(["c14", "replay-url", dd / "url_vectors.ndjson"], "url")
+        # the run (length-scaled) vectors make this the heaviest replay: several harness processes side by side
+        from props.C13 import split_file
+        parts = split_file(dd / "url_vectors.ndjson", 4 if q else 8)
+        for f in [pool.submit(vh_collect, ["c14", "replay-url", part], "url_%d" % i) for i, part in enumerate(parts)]:
+            f.result()
 
     # Cold start: lazily initialised package state has a first-use window that exists once per process.  FRESH
     # processes (plain and -race) in which the very first calls of the functions under test are made by N goroutines
